@@ -218,5 +218,8 @@ package intdataplane
 //@   option opaque wlLess
 //@   uses wlLess_transitive, wlLess_total, wlLess_irreflexive
 //@   requires m != nil
+//@ -- a rename leaves nothing registered under the endpoint's OLD interface name (otherwise a different endpoint
+//@ -- that later takes that name would find a ghost owner)
+//@   ghost at call updateWorkloadARPChains: check (oldWorkload != nil && oldWorkload.Name != workload.Name) ==> !(oldWorkload.Name in m.activeWlIfaceNameToID)
 //@   loop 3 invariant emIdsValid(m) && bestShadowedId.EndpointId != "" ==> visited[bestShadowedId] && (bestShadowedId in m.shadowedWlEndpoints) && m.shadowedWlEndpoints[bestShadowedId].Name == oldWorkload.Name
 //@   loop 3 invariant emIdsValid(m) ==> forall s types.WorkloadEndpointID :: visited[s] && (s in m.shadowedWlEndpoints) && m.shadowedWlEndpoints[s].Name == oldWorkload.Name ==> bestShadowedId.EndpointId != "" && (s == bestShadowedId || wlLess(bestShadowedId, s))
